@@ -427,7 +427,14 @@ fn miri_invoke_args(args: &[String], miri_seeds: u64) -> Result<(u64, String), S
         || stderr.contains("panicked at");
     let excerpt: String = stderr
         .lines()
-        .filter(|l| l.starts_with("error") || l.contains("Undefined Behavior") || l.contains("leaked") || l.contains("MIRI-FAIL"))
+        .filter(|l| {
+            l.starts_with("error")
+                || l.contains("Undefined Behavior")
+                || l.contains("leaked")
+                || l.contains("MIRI-FAIL")
+                || l.contains("panicked at")
+                || l.starts_with("assertion ")
+        })
         .chain(stdout.lines().filter(|l| l.contains("MIRI-FAIL")))
         .take(12)
         .collect::<Vec<_>>()
